@@ -17,17 +17,13 @@ From JT.Proofs Require Import Total_base_proofs Total_msgs_proofs Total_codec_pr
 
 (* ---- the generic theorem for straight-line decoders: one length guard (len = N or len >= N) and
         every member's offset + width inside N  =>  no panic, for every body ---- *)
-Theorem C03_fixed_layout_total : forall g fs, layout_ok g fs = true ->
-  forall body, fixed_parse g fs body <> Panic.
-Proof. exact fixed_layout_total. Qed.
+Theorem C03_fixed_layout_total : forall g fs, layout_ok g fs = true -> forall body,
+  fixed_parse g fs body <> Panic /\
+  (* and what it returns: a value with one member per layout entry exactly when the guard holds *)
+  ((exists vs, fixed_parse g fs body = Ok (VL vs) /\ List.length vs = List.length fs /\ guard_ok g (len body) = true) \/
+   (fixed_parse g fs body = Err E_LEN /\ guard_ok g (len body) = false)).
+Proof. intros g fs H body. split. now apply fixed_layout_total. now apply fixed_layout_result. Qed.
 Print Assumptions C03_fixed_layout_total.
-
-(* and what it returns: a value with one member per layout entry exactly when the guard holds *)
-Theorem C03_fixed_layout_result : forall g fs, layout_ok g fs = true -> forall body,
-  (exists vs, fixed_parse g fs body = Ok (VL vs) /\ List.length vs = List.length fs /\ guard_ok g (len body) = true) \/
-  (fixed_parse g fs body = Err E_LEN /\ guard_ok g (len body) = false).
-Proof. exact fixed_layout_result. Qed.
-Print Assumptions C03_fixed_layout_result.
 
 (* instantiated: the sixteen straight-line types 0x0001 0x0002 0x0800 0x1003 0x1005 0x1206 0x8001
    0x8100 0x8104 0x8801 0x9003 0x9102 0x9105 0x9202 0x9205 0x9207 satisfy the static check *)
@@ -62,13 +58,15 @@ Theorem C03_types_total :
   (* C03_P0x9201_total *) (forall body, p9201_parse body <> Panic) /\
   (* C03_P0x9206_total *) (forall body, p9206_parse body <> Panic) /\
   (* C03_P0x9208_total *) (forall d body, p9208_parse d body <> Panic) /\
-  (* C03_P0x9212_total *) (forall body, p9212_parse body <> Panic).
+  (* C03_P0x9212_total *) (forall body, p9212_parse body <> Panic) /\
+  (* the 0x1210 attachment loop, every count, every start position *)
+  (forall n body start, t1210_items n body start <> Panic).
 Proof.
   repeat split.
   exact t0100_total. exact t0102_total. exact t0104_total. exact p8103_total. exact t0805_total.
   exact t1205_total. exact t1210_total. exact t1211_total. exact t1212_total. exact p8003_total.
   exact p8800_total. exact p9101_total. exact p9201_total. exact p9206_total. exact p9208_total.
-  exact p9212_total.
+  exact p9212_total. exact t1210_items_total.
 Qed.
 Print Assumptions C03_types_total.
 
@@ -80,54 +78,65 @@ Theorem C03_params_walk : forall fuel gbk count known other body,
 Proof. intros. split. apply params_walk_total. intros e. apply params_walk_err. Qed.
 Print Assumptions C03_params_walk.
 
-(* the 0x1210 attachment loop for every count and every start position *)
-Theorem C03_T0x1210_items : forall n body start, t1210_items n body start <> Panic.
-Proof. exact t1210_items_total. Qed.
-Print Assumptions C03_T0x1210_items.
-
 (* ---- all 32 modelled message types at once (dispatch by message id) ---- *)
 Theorem C03_msg_total : forall id gbk ver d r body, ver = 1 \/ ver = 2 \/ ver = 3 ->
   parse_msg id gbk ver d r body <> Panic.
 Proof. exact parse_msg_total. Qed.
 Print Assumptions C03_msg_total.
 
-(* ---- history independence: of the previous receiver only the members that no Parse ever writes
-        are inputs (config_of: nothing at all, except the retransmit list of 0x1212 and, under the HLJ
+(* ---- history independence, in the form "of the previous receiver only the members that no Parse
+        ever writes are inputs".  For 29 of the 32 ids the model does not take the receiver as an
+        argument at all (every member is assigned on success), so for those the equation is
+        definitional and the claim "every member is assigned" is carried by the correspondence on
+        reused receivers (op c03s, C03/history/<T>).  It has content for 0x0100 (Version kept for an
+        undefined header version), 0x1210 under HLJ (TerminalID not assigned) and 0x1212 (the
+        retransmit list): there the result DOES depend on r, through config_of only (config_of: nothing at all, except the retransmit list of 0x1212 and, under the HLJ
         dialect which has no leading terminal id, TerminalID of 0x1210; both are empty on a receiver
         that was only ever filled by Parse) ---- *)
-Theorem C03_msg_history : forall id gbk ver d r body, ver = 1 \/ ver = 2 \/ ver = 3 ->
-  parse_msg id gbk ver d r body = parse_msg id gbk ver d (config_of id d r) body.
-Proof. exact parse_msg_history. Qed.
+Theorem C03_msg_history :
+  (forall id gbk ver d r body, ver = 1 \/ ver = 2 \/ ver = 3 ->
+     parse_msg id gbk ver d r body = parse_msg id gbk ver d (config_of id d r) body) /\
+  (* and on a fresh receiver those members are empty *)
+  (forall id d, config_of id d (VL []) = VL [] \/
+     (id = 4624 /\ d = 2 /\ config_of id d (VL []) = VL [VS []]) \/
+     (id = 4626 /\ config_of id d (VL []) = VL [VL []; VL []])).
+Proof. split. exact parse_msg_history. exact config_fresh. Qed.
 Print Assumptions C03_msg_history.
 
-Theorem C03_msg_history_fresh : forall id d,
-  config_of id d (VL []) = VL [] \/
-  (id = 4624 /\ d = 2 /\ config_of id d (VL []) = VL [VS []]) \/
-  (id = 4626 /\ config_of id d (VL []) = VL [VL []; VL []]).
-Proof. exact config_fresh. Qed.
-Print Assumptions C03_msg_history_fresh.
-
-(* ---- rendering a successfully parsed value: the three String() methods that re-slice their own
-        Encode() output (0x8100 body[3:], 0x0102 body[1+AuthCodeLen+15:] computed in uint8,
-        0x0100 data[4+mLen+tLen+tIDLen+1:]); every other String() only formats members ---- *)
-Theorem C03_msg_render : forall id gbk ver d r body enc v,
-  parse_msg id gbk ver d r body = Ok v -> render_msg id enc v <> Panic.
-Proof. exact render_msg_total. Qed.
+(* ---- rendering a successfully parsed value.  Stated for exactly the three String() methods of these
+        32 types that re-slice their own Encode() output: P0x8100 `body[3:]`, T0x0102
+        `body[1+AuthCodeLen+15:]` (index computed in uint8), T0x0100 `data[4+mLen+tLen+tIDLen+1:]`
+        (any GBK encoder `enc`).  For 0x0102 the hypothesis matters: the index is inside Encode()
+        because a PARSED AuthCode has exactly AuthCodeLen bytes.
+        Every other String() of protocol/model (the remaining 29 types, TerminalParamDetails, the
+        extension handlers, P9208AlarmSign, jt808 Header, jt1078 Packet) only formats members and
+        loops over lists; there is no Coq statement about them: ORACLE ONLY (String() under recover()
+        on every successfully parsed body: C03/string/<T>, and inside the location / extension / RTP
+        ops).  The location renderers are in Props/C03_location.v (C03_location_render). ---- *)
+Theorem C03_msg_render :
+  (forall v, p8100_render v <> Panic) /\
+  (forall ver body v, t0102_parse ver body = Ok v -> t0102_render v <> Panic) /\
+  (forall enc v, t0100_render enc v <> Panic).
+Proof. repeat split. exact p8100_render_total. exact t0102_render_total. exact t0100_render_total. Qed.
 Print Assumptions C03_msg_render.
 
-(* ---- jt808 frame Decode and jt1078 Packet.Decode on ANY previous receiver ---- *)
-Theorem C03_frame_total : forall r d, frame_decode r d <> Panic.
-Proof. exact frame_total. Qed.
-Print Assumptions C03_frame_total.
-Theorem C03_frame_history : forall r d, frame_decode r d = frame_decode empty_msg d.
-Proof. exact frame_history. Qed.
-Print Assumptions C03_frame_history.
-Theorem C03_rtp_total : forall r d, rtp_decode r d <> Panic.
-Proof. exact rtp_total. Qed.
-Print Assumptions C03_rtp_total.
-Theorem C03_rtp_history : forall r d, rtp_decode r d = rtp_decode fresh_pkt d.
-Proof. exact rtp_history. Qed.
-Print Assumptions C03_rtp_history.
+(* ---- jt808 frame Decode and jt1078 Packet.Decode on ANY previous receiver.
+        C03_frame_history is DEFINITIONAL: after fix ea4f312 Decode assigns every observable member and
+        recomputes the sub-package flag, so the model (Total_codec.frame_decode r d := decode_chk d)
+        does not take the receiver as an input at all and the equation holds by reflexivity.  It is
+        kept as the record of that modelling decision; what carries history independence of
+        JTMessage.Decode is the harness: op c03fseq decodes 1-3 earlier frames (fragmented ones and
+        prefixes included) into ONE JTMessage before the frame under test and the answer must be the
+        fresh one (C03/history/jt808.Decode; lib/ops_frame.go does the same for C02:
+        C02/reused-receiver).  C03_rtp_history has content as far as Model/Jt1078.v has: decode takes
+        the receiver and rtp_reset clears what decodeHead clears. ---- *)
+Theorem C03_codec_reuse :
+  (* C03_frame_total *)   (forall r d, frame_decode r d <> Panic) /\
+  (* C03_frame_history *) (forall r d, frame_decode r d = frame_decode empty_msg d) /\
+  (* C03_rtp_total *)     (forall r d, rtp_decode r d <> Panic) /\
+  (* C03_rtp_history *)   (forall r d, rtp_decode r d = rtp_decode fresh_pkt d).
+Proof. split; [|split; [|split]]. exact frame_total. exact frame_history. exact rtp_total. exact rtp_history. Qed.
+Print Assumptions C03_codec_reuse.
 
 (* ---- non-vacuity ---- *)
 (* the static check is what carries the generic theorem: a member one byte beyond the guard is
@@ -150,6 +159,20 @@ Example C03_accepts :
   is_ok (parse_msg 4624 (fun x => x) 2 2 (VL []) (repeat 0 71 ++ [1; 1; 65; 0; 0; 0; 9])) = true /\
   is_ok (parse_msg 37384 (fun x => x) 2 3 (VL []) (0 :: repeat 1 76)) = true.
 Proof. vm_compute. repeat split; reflexivity. Qed.
+
+(* the three renderers' hypotheses are satisfiable (0x8100 with an auth code, 0x0102 in the 2019
+   layout), and a non-fresh reachable receiver exists: 0x1212 after one successful parse *)
+Example C03_render_examples :
+  is_ok (parse_msg 33024 (fun x => x) 2 0 (VL []) [0; 1; 0; 65; 66]) = true /\
+  (exists v, t0102_parse 3 (1 :: repeat 65 36) = Ok v /\ is_ok (t0102_render v) = true).
+Proof. split. reflexivity. eexists. split. vm_compute. reflexivity. reflexivity. Qed.
+
+Example C03_reach_example : exists v, v <> VL [] /\ reach 4626 (fun x => x) 0 v.
+Proof.
+  eexists. split; [|eapply (reach_ok 4626 (fun x => x) 0 (VL []) 2 [1; 65; 0; 0; 0; 0; 9]);
+    [apply reach_fresh | right; left; reflexivity | vm_compute; reflexivity]].
+  discriminate.
+Qed.
 
 (* the hypothesis on ver is needed: a header version outside the three defined values (never
    produced by jt808 Decode) leaves Version at the receiver's value and skips both guards *)
